@@ -66,6 +66,8 @@ class ConstOperands:
         if kind is None:
             # mostly the same kind, sometimes the other one (int with float: numpy promotes)
             kind = base.get("kind") if draw(st.booleans()) else draw(st.sampled_from(list(self.kinds)))
+            if base.get("kind") == "i" and "f" in self.kinds and draw(st.integers(0, 2)) == 0:
+                kind = "f"  # narrower kind first, wider second: results must take numpy's promoted dtype
         return self.array(draw, shape=shape, kind=kind)
 
 
